@@ -258,6 +258,19 @@ func (g *wgen) corrupt(tr *hx.TRef, w hx.Val, label string) (hx.Val, bool) {
 		if tr.Name == "Float" || tr.Name == "Int" {
 			cands = append(append([]hx.Val{}, cands...), nan64, inf64)
 		}
+		if tr.Name == "Int" {
+			// every Go integer kind at and beyond its own extremes
+			cands = append(cands, hx.Val{K: "uint64", S: "18446744073709551615"}, hx.Val{K: "uint64", S: "18446744073709551611"}, hx.Val{K: "uint64", S: "18446744071562067968"},
+				hx.Val{K: "uint64", S: "9223372036854775808"}, hx.Val{K: "uint64", S: "2147483648"}, hx.Val{K: "uint", S: "18446744073709551615"}, hx.Val{K: "uint", S: "4294967296"},
+				hx.Val{K: "uint32", S: "4294967295"}, hx.Val{K: "uint32", S: "2147483648"}, hx.Val{K: "int", S: "-2147483649"}, hx.Val{K: "int64", S: "-9223372036854775808"},
+				hx.Val{K: "float32", S: "2.1474836e+09"}, hx.Val{K: "float32", S: "1.5"})
+		}
+		if tr.Name == "Int64" {
+			cands = append(cands, hx.Val{K: "uint64", S: "18446744073709551615"}, hx.Val{K: "uint64", S: "9223372036854775808"})
+		}
+		if tr.Name == "Float" {
+			cands = append(cands, hx.Val{K: "float32", S: "+Inf"}, hx.Val{K: "float32", S: "NaN"})
+		}
 	}
 	return rapid.SampledFrom(cands).Draw(t, label+"b"), true
 }
